@@ -30,6 +30,22 @@ FAMILIES = {
     "blank-lines": lambda n: "SELECT a" + " \n" * (4 * n) + "FROM t",
     "long-word": lambda n: "SELECT " + "w" * (8 * n) + " FROM t",
     "long-number": lambda n: "SELECT " + "7" * (8 * n) + " FROM t",
+    # ONE long token that is ALMOST what its position wants (a digit run ending in a letter where an integer is required, a hex literal with a bad last digit, …):
+    # the text-level tests behind the grammar (is_int_literal & co., int(), the literal classifiers) see the whole token — their cost must be linear in its length
+    "near-miss-limit": lambda n: "SELECT a FROM t LIMIT " + "1" * n + "x",
+    "near-miss-offset": lambda n: "SELECT a FROM t LIMIT 5 OFFSET " + "1" * n + "x",
+    "near-miss-limit-comma": lambda n: "SELECT a FROM t LIMIT " + "1" * n + "x, 3",
+    "near-miss-limit-underscore": lambda n: "SELECT a FROM t LIMIT " + "1_" * (n // 2) + "x",
+    "near-miss-type-parameter": lambda n: "CREATE TABLE t (a VARCHAR(" + "1" * n + "x))",
+    "near-miss-frame": lambda n: "SELECT SUM(a) OVER (ORDER BY b ROWS BETWEEN " + "1" * n + "x PRECEDING AND CURRENT ROW) FROM t",
+    "near-miss-float": lambda n: "SELECT a FROM t WHERE b = " + "1" * n + "." + "1" * n + "e",
+    "near-miss-hex": lambda n: "SELECT x'" + "1F" * n + "G' FROM t",
+    "near-miss-signed-number": lambda n: "SELECT a FROM t WHERE b = -" + "1" * n + "-",
+    "long-limit": lambda n: "SELECT a FROM t LIMIT " + "1" * n,
+    "long-float": lambda n: "SELECT " + "1" * n + "." + "2" * n + " FROM t",
+    "long-quoted-name": lambda n: "SELECT `" + "a b" * n + "` FROM t",
+    "long-dotted-word": lambda n: "SELECT " + "a." * n + "b FROM t",
+    "long-index-ordinal": lambda n: "SELECT a FROM t GROUP BY " + "1" * n + " ORDER BY " + "2" * n + "x",
     # constructs nested in THEMSELVES (depth n/8, at most 40: CPython's frame limit): a parser that tries an alternative and parses the inner part again doubles per level
     "nested-subquery-arith": lambda n: "SELECT " + "((SELECT " * min(n // 8, 40) + "1" + ") + 1)" * min(n // 8, 40),
     "nested-subquery": lambda n: "SELECT " + "(SELECT " * min(n // 8, 40) + "1" + ")" * min(n // 8, 40),
